@@ -21,7 +21,7 @@ pub fn generate(thorough: bool, seed: u64, em: &mut Emitter) {
             // exactly one invalid path, of one kind, at a random position of the list
             let kind = *r.pick(&["unknown_member", "index_out_of_range", "non_numeric_index", "no_leading_slash", "empty_path",
                                  "inside_disclosed", "through_scalar", "member_of_array", "negative_index", "index_overflow", "reserved_name",
-                                 "into_digest_list", "repeat_array_element", "repeat_member", "into_placeholder"]);
+                                 "into_digest_list", "repeat_array_element", "repeat_member", "into_placeholder", "cnf_path_with_key_binding"]);
             let nodes = gen::all_nodes(&claims);
             let mut paths: Vec<String> = marks.iter().map(gen::render).collect();
             let bad: Option<(String, usize)> = match kind {
@@ -84,6 +84,16 @@ pub fn generate(thorough: bool, seed: u64, em: &mut Emitter) {
                             _ => fs.clone(),
                         };
                         Some((second, paths.len()))
+                    }
+                }
+                "cnf_path_with_key_binding" => {
+                    // the holder key the issuer adds under cnf is not a claim of the caller: with key binding
+                    // required, "/cnf" (or a path into it) addresses no member of the claims and is an error
+                    if case["claims"].get("cnf").is_some() {
+                        None
+                    } else {
+                        case["cnf"] = json!(true);
+                        Some((r.pick(&["/cnf", "/cnf/n", "/cnf/kty"]).to_string(), r.below(paths.len() + 1)))
                     }
                 }
                 "reserved_name" => {
